@@ -843,6 +843,7 @@ func corrC08(r *Run) {
 
 	// ---- 5. random texts over the 137 characters (CR / ESC / '@' heavy at the end), some with a foreign character
 	nr := r.N(400, 6000)
+	th := r.N(1, 4) // the thorough tier has 15 times the inputs: a smaller share of them gets the full set of direct Transform calls
 	for i := 0; i < nr; i++ {
 		ln := r.Rng.Intn(48)
 		if i%25 == 7 {
@@ -877,7 +878,7 @@ func corrC08(r *Run) {
 			bucket = "random with one foreign character"
 		}
 		c.mute = ln > 300
-		c.textX(t, bucket, 2, 2*b2i(i%4 == 1 || ln > 200), i%3 == 0 || ln > 200)
+		c.textX(t, bucket, 2, 2*b2i(i%(4*th) == 1 || ln > 200), i%(3*th) == 0 || ln > 200)
 		c.mute = false
 	}
 	// very long texts, direct tests only (index and length arithmetic beyond 255 / 4096 / 65535 octets of output,
@@ -963,7 +964,7 @@ func corrC08(r *Run) {
 			src = append([]byte{}, e.out...)
 			src[r.Rng.Intn(len(src))] ^= 1 << uint(r.Rng.Intn(8))
 		}
-		c.octetsX(src, "random octets", 2*b2i(i%5 == 0), i%6 == 0)
+		c.octetsX(src, "random octets", 2*b2i(i%(5*th) == 0), i%(6*th) == 0)
 	}
 	if n := atomic.LoadInt32(&g7HungCount); n > 0 {
 		r.Notes = append(r.Notes, fmt.Sprintf("%d entry point(s) did not return within %v and were not called again", n, g7Patience))
